@@ -9,6 +9,9 @@ Strings travel as `x<hex bytes>` tokens (one `Char` per byte).
   cfg alias <0|1> x<keyword> x<alias>         -> ok       (add_alias_key, flag = deprecated)
   parse x<text>                 -> <ok1|ok0|err|hang> <dump of all variables>
   info                          -> x<parameter_info()>
+  count <cur> x<line>           -> <table size>|err        (header-declared counts)
+  pdfsseg <S> <ax…> | <min…>|- | <max…>|-  -> rej | err | ok <min segment> <max segment>
+                                   (per-segment lists of an Interfile projection-data header; "-" = key absent)
 -/
 namespace Driver.C17
 open StirVerif.C17
@@ -100,6 +103,16 @@ def stepLine (p : KP) (line : String) : KP × String :=
     match countKey (I cur) (unhex l) with
     | some (_, sz) => (p, toString sz)
     | none => (p, "err")
+  | "pdfsseg" :: S :: rest =>
+    -- pdfsseg <S> <ax…> | <min…>|- | <max…>|-      ("-" = the key does not occur in the header)
+    match splitBar rest with
+    | [ax, mn, mx] =>
+      let opt (l : List String) : Option (List Int) := if l == ["-"] then none else some (l.map I)
+      match pdfsSegments (segTablesOf (I S) (ax.map I) (opt mn) (opt mx)) with
+      | .rejected => (p, "rej")
+      | .error => (p, "err")
+      | .ok a b => (p, s!"ok {a} {b}")
+    | _ => (p, "bad-op")
   | _ => (p, "bad-op")
 
 partial def loop (h : IO.FS.Stream) (p : KP) : IO Unit := do
